@@ -936,6 +936,8 @@ class Exec:
             if getattr(a, 'size', None) is None:
                 a.size = self.fresh('maplen')
                 self.assume(a.size >= 0)
+                # the map is empty exactly when no key is present
+                self.assume((a.size == 0) == (a.has == z3.K(z3.StringSort(), z3.BoolVal(False))))
                 if a.nil is not False:
                     self.assume(Implies(a.nil, a.size == 0))
             return a.size
